@@ -337,6 +337,9 @@ func c19(c *ev.Ctx) {
 	c.Extra("processes", procs)
 	c.Extra("in_process_repetitions", reps)
 	c19Fixed(c)
+	// an object at the same address with other contents is another object: what the run
+	// sees must not depend on where the host keeps its record (stream shared with C04, C07)
+	c04SameReference(c)
 }
 
 func diffLine(a, b string) string {
